@@ -27,7 +27,7 @@ rm -f pkcs12/test.p12
 cd /repo && git apply $out/patch.diff || { echo "PATCH DOES NOT APPLY TO /repo"; exit 4; }
 res=""
 for p in ${props//,/ }; do
-  o=$(/verif/bin/gmsmcheck -property $p -verif /tmp/seedverif.$$ 2>&1); mkdir -p /tmp/seedverif.$$
+  mkdir -p /tmp/seedverif.$$; cp /verif/known_findings.txt /tmp/seedverif.$$/
   o=$(cd /verif && /verif/bin/gmsmcheck -repo /repo -verif /tmp/seedverif.$$ -property $p 2>&1)
   echo "$o" | grep -v "^VIOLATION\|^KNOWN" | cut -c1-400
   res="$res $p:$(echo "$o" | grep -c '^VIOLATION')"
